@@ -47,3 +47,4 @@ package health
 //@   ensures xhas(cb.endpoints, endpointURL) && xget(cb.endpoints, endpointURL).isOpen == 1 && res == false ==> now > xget(cb.endpoints, endpointURL).lastFailure + 30000000000
 //@   ensures xhas(cb.endpoints, endpointURL) && xget(cb.endpoints, endpointURL).isOpen == 1 && res == false ==> xget(cb.endpoints, endpointURL).lastAttempt >= old(now)
 //@   ensures xhas(cb.endpoints, endpointURL) && xget(cb.endpoints, endpointURL).isOpen == 1 && res == false ==> old(xget(cb.endpoints, endpointURL).lastAttempt) == 0 || old(xget(cb.endpoints, endpointURL).lastAttempt) + 1000000000 <= now
+//@   ensures xhas(cb.endpoints, endpointURL) && xget(cb.endpoints, endpointURL).isOpen == 1 && old(now) > xget(cb.endpoints, endpointURL).lastFailure + 30000000000 && (old(xget(cb.endpoints, endpointURL).lastAttempt) == 0 || old(xget(cb.endpoints, endpointURL).lastAttempt) + 1000000000 <= old(now)) ==> res == false
